@@ -31,7 +31,22 @@ HANDLES = {
 ALL_CRATES = ["metrics", "metrics_util", "metrics_tracing_context", "metrics_exporter_dogstatsd", "metrics_exporter_tcp", "metrics_exporter_prometheus"]
 
 
-def forward_ok(chk, rule, fn, trait, name, params, through=("IntoF64::into_f64",), need_some=None):
+def handle_repr(m, ty):
+    """(private field, live variant, no-op variant) of a handle type, read from its two constructors: from_arc(a) stores
+    <live>(a) and noop() stores <no-op> — `inner: Option<Arc<..>>` with Some/None, or a private two-variant enum."""
+    fa = (m.method(f"metrics::handles::{ty}", "from_arc") or [None])[0]
+    nf = (m.method(f"metrics::handles::{ty}", "noop") or [None])[0]
+    if fa is None or nf is None:
+        return "inner", "Some", "None"
+    ra, rn = strip_sym(Sym(fa).local(0)), strip_sym(Sym(nf).local(0))
+    if ra[0] == "agg" and len(ra[3]) == 1 and rn[0] == "agg" and len(rn[3]) == 1:
+        va, vn = strip_sym(ra[3][0]), strip_sym(rn[3][0])
+        if va[0] == "agg" and va[2] and len(va[3]) == 1 and "('arg', 0" in repr(va[3][0]) and vn[0] == "agg" and vn[2] and not vn[3] and va[2] != vn[2] and strip_generics(va[1] or "") == strip_generics(vn[1] or ""):
+            return (ra[4] or ("inner",))[0], va[2], vn[2]
+    return "inner", "Some", "None"
+
+
+def forward_ok(chk, rule, fn, trait, name, params, through=("IntoF64::into_f64",), need_some=None, live="Some"):
     """fn's region contains exactly one call of a `trait` method; it is `name`; argument i is param i."""
     tcs = [c for c in nonforeign_calls(fn) if (c.t.get("trait") or "").endswith(trait) or any(path_is(n, f"{trait}::{m}") for n in c.names for m in ("increment", "absolute", "decrement", "set", "record", "record_many"))]
     where = f"{fn.path}"
@@ -54,8 +69,8 @@ def forward_ok(chk, rule, fn, trait, name, params, through=("IntoF64::into_f64",
     if need_some:
         recv = sy.operand(c.args[0])
         txt = repr(recv)
-        if f"'{need_some}'" not in txt or "'Some'" not in txt:
-            return chk.ob(rule, where, False, f"receiver {sym_str(recv)} is not the Some payload of self.{need_some}", c.loc())
+        if f"'{need_some}'" not in txt or f"'{live}'" not in txt:
+            return chk.ob(rule, where, False, f"receiver {sym_str(recv)} is not the {live} payload of self.{need_some}", c.loc())
     return chk.ob(rule, where, True, f"{trait}::{name}({', '.join('param#%d' % p for p in params)}) exactly once", c.loc())
 
 
@@ -75,17 +90,18 @@ def run(ctx):
     panic_regions = []
     # ---- C04.a handles
     for ty, (trait, methods) in HANDLES.items():
+        FLD, LIVE, NOOP = handle_repr(m, ty)
         for name, params in methods.items():
             f = one_method(chk, "C04.a", m, f"metrics::handles::{ty}", name)
             if f is None:
                 continue
-            forward_ok(chk, "C04.a", f, trait, name, params, need_some="inner")
+            forward_ok(chk, "C04.a", f, trait, name, params, need_some=FLD, live=LIVE)
             panic_regions.append(f)
         nf = one_method(chk, "C04.a", m, f"metrics::handles::{ty}", "noop")
         if nf is not None:
             sy = Sym(nf)
             r = strip_sym(sy.local(0))
-            ok = r[0] == "agg" and len(r[3]) == 1 and repr(r[3][0]).find("'None'") >= 0 and not nonforeign_calls(nf)
+            ok = r[0] == "agg" and len(r[3]) == 1 and repr(r[3][0]).find(f"'{NOOP}'") >= 0 and not nonforeign_calls(nf)
             chk.ob("C04.a", nf.path, ok, "noop() builds the handle with inner = None and calls nothing" if ok else f"noop() builds {sym_str(r)}", nf.loc(), nontrivial=False)
             panic_regions.append(nf)
     # Arc<T> impls
@@ -114,7 +130,7 @@ def run(ctx):
             continue
         r = strip_sym(Sym(f).local(0))
         txt = repr(r)
-        ok = r[0] == "agg" and "'Some'" in txt and "('arg', 0" in txt
+        ok = r[0] == "agg" and f"'{handle_repr(m, ty)[1]}'" in txt and "('arg', 0" in txt
         chk.ob("C04.a", f.path, ok, "from_arc(a) stores Some(a)" if ok else f"builds {sym_str(r)}", f.loc())
 
     # ---- C04.b atomics
